@@ -15,13 +15,20 @@ ASSUMPTIONS = [
     'the source slice of a target (parseinfo.pos:endpos) is taken from the implementation\'s parser; the harness predicts it as '
     '"first token to last token of the expression without enclosing parentheses" and the model applies the naming rule to it',
     'identifiers are lower-cased by the parser (column names), source slices keep their spelling',
+    'translator tie (C07_source_target_name): PyMini (Model/PyMini.v) is the semantics of the translated get_target_name; '
+    'a target is encoded as a tagged record (Model/PrimsApi.v): isinstance(x, ast.Column) is a test of the class tag, '
+    'attribute reads are record lookups, str.strip() is Model/Naming.strip (ASCII white space)',
 ]
 EXTRA_TARGETS = ['Proofs/RegistryTie.vo']
 WS = [' ', '  ', '\n', '\t', ' /* c */ ', '\n  ']
 
 
 def generate():
-    return gen_registry.generate()
+    """registry snapshot (as before) + translator tie: coq/Gen/SrcNaming.v from the source of get_target_name"""
+    from . import gen_src
+    out = dict(gen_registry.generate() or {})
+    out.update(gen_src.generate('naming'))
+    return out
 
 
 def spaced(rng, text):
